@@ -114,8 +114,11 @@ def main():
     if sys.argv[1] == "--replay":
         doc = json.load(open(sys.argv[2]))
         case = doc["replay"]["case"]
-        fails = check(case["cfg"], case.get("point_seed", 0))
-        print(json.dumps({"still_fails": bool(fails), "fails": fails}))
+        fails = check(case["cfg"], case.get("point_seed", 0)) or []
+        want = doc.get("signature", "").split(":")[0]
+        # only the stored signature counts (the known finding on identical particles is a different signature)
+        same = [f for f in fails if f[0] == want]
+        print(json.dumps({"still_fails": bool(same), "fails": same}))
         return
     seed, n = int(sys.argv[1]), int(sys.argv[2])
     rng = random.Random(seed * 31337 + 5)
